@@ -196,6 +196,28 @@ func (e *Engine) externalModel(fr *frame, ins ssa.Instruction, name string, fn *
 			e.sc.assume(implies(eq(base, bvLit(10, 64)), and(app("parseint.ok", r, bvLit(10, 64), b), eq(app("parseint.val", r, bvLit(10, 64), b), v))))
 		}
 		return Sc{r, SStr}, reach, true
+	case "flag.Bool", "flag.Int", "flag.String":
+		use()
+		// a pointer to a new flag variable (its value after Parse is whatever the command line says)
+		pt := fn.Signature.Results().At(0).Type().(*types.Pointer)
+		ref := e.alloc()
+		e.store(heap, PtrVal{Base: ref, Root: pt.Elem()}, pt.Elem(), e.freshVal(pt.Elem(), "flagval"))
+		return Sc{ref, SRef}, reach, true
+	case "flag.Args":
+		use()
+		// the positional arguments do not change after flag.Parse: every call returns the same slice
+		if r, ok := e.pureMemo["flag.Args"]; ok {
+			return r, reach, true
+		}
+		r := e.freshVal(types.NewSlice(types.Typ[types.String]), "flag_args")
+		e.pureMemo["flag.Args"] = r
+		return r, reach, true
+	case "os.Stat":
+		use()
+		e.needStrOp("os.statok", []string{SStr}, SBool)
+		ok := app("os.statok", str(0))
+		errv := e.iteVal(ok, nilErr, newErr())
+		return TupleVal{e.freshVal(fn.Signature.Results().At(0).Type(), "fileinfo"), errv}, reach, true
 	case "fmt.Errorf", "errors.New":
 		use()
 		return newErr(), reach, true
